@@ -28,7 +28,8 @@ BENIGN = {
 # hazard class -> comment texts
 HAZARDS = {
     "docstring.triple_quote_in_comment": ['Use """triple quotes""" here.', 'See """.', '""" at the start', 'Quote: """', 'five """"" quotes', 'escaped \\""" already'],
-    "docstring.trailing_backslash": ["Windows path C:\\", "Ends with a backslash \\", "line one\nline two \\"],
+    "docstring.trailing_backslash": ["Windows path C:\\", "Ends with three backslashes \\\\\\", "line one\nline two \\", "Ends with a backslash \\",
+                                     "two \\\\", "four " + "\\" * 4, "five " + "\\" * 5, "six " + "\\" * 6, "several lines\nthen three \\\\\\", "several lines\nthen five " + "\\" * 5],
     "docstring.backslash_escape": ["Path C:\\users\\xavier", "Matches \\d+ and \\N{x", "Use \\u for unicode", "A newline is written \\n here"],
     "docstring.quote_at_end": ['He said "hello"', "it's", "a 'single' one'", 'two ""'],
 }
